@@ -495,6 +495,8 @@ func (fx *FuncCtx) builtin(st *State, b *ssa.Builtin, args []Val, rt types.Type,
 		kc := HeapKey{"CH$closed", "(Array Int Bool)"}
 		cur := fx.heapGet(st.heap, kc)
 		fx.nilCheck(st, ch, pos, "close of nil channel")
+		fx.decls.declare("CH$open", "(Array Int Bool)")
+		fx.oblige(st, "safe", "close-open", not(sx("select", "CH$open", ch)), pos, "close of a channel declared `openchan` (never closed)")
 		if len(st.held) == 0 && fx.fc.Opts["trust_unlocked_close"] != "" {
 			fx.trusted["close(ch) outside the lock in "+fx.key+" is assumed not to hit a closed channel (needs an ownership argument outside the monitor)"] = true
 		} else {
@@ -752,6 +754,9 @@ func (fx *FuncCtx) applyContract(st *State, callee *ssa.Function, fc *FuncContra
 	genv = fx.localsEnv(st, st.heap, map[string]string{})
 	if rt != nil && res.Tup == nil {
 		genv.vars["result$"] = res
+	}
+	for i, r := range res.Tup {
+		genv.vars[fmt.Sprintf("result$%d", i)] = r
 	}
 	fx.runGhost(st, "after "+site, genv, pos)
 	return res
@@ -1042,6 +1047,7 @@ func (fx *FuncCtx) frameObligations(st *State, env *SpecEnv, pos token.Pos) {
 // ---------------------------------------------------------------- ghost code
 
 func (fx *FuncCtx) runGhost(st *State, anchor string, env *SpecEnv, pos token.Pos) {
+	fx.curPos = pos
 	for _, gb := range fx.fc.Ghost {
 		if gb.At != anchor {
 			continue
@@ -1068,6 +1074,22 @@ func (fx *FuncCtx) ghostAssign(st *State, env *SpecEnv, gs GhostStmt, cond strin
 		t := env.boolTerm(gs.Assume)
 		st.assume(implies(cond, t))
 		fx.trusted["assumed environment fact in "+fx.key+": "+gs.Assume.String()] = true
+		return
+	}
+	if gs.Assert != nil {
+		var side []string
+		env.side = &side
+		t := env.boolTerm(gs.Assert)
+		for _, sd := range side {
+			st.assume(sd)
+		}
+		env.side = nil
+		name := gs.AssertName
+		if name == "" {
+			name = "assert"
+		}
+		fx.oblige(st, "ghost", name, implies(cond, t), fx.curPos, gs.Assert.String())
+		st.assume(implies(cond, t))
 		return
 	}
 	// resolve LHS: ghost field x.f, ghost map element x.f[k], ghost global g, g[k]
@@ -1468,6 +1490,10 @@ func (fx *FuncCtx) ghostInScope(env *SpecEnv, gb GhostBlock) (ok bool) {
 	for _, gs := range gb.Stmts {
 		if gs.Assume != nil {
 			probe.eval(gs.Assume)
+			continue
+		}
+		if gs.Assert != nil {
+			probe.eval(gs.Assert)
 			continue
 		}
 		if gs.BulkVar == "" {
